@@ -166,6 +166,7 @@ func (c02) Generate(r *core.Rand, tier string, idx uint64) *core.Case {
 	b.add(world.Op{Kind: "apply", Actor: 0})
 	history := []*world.PolicySpec{pol}
 	nStates := r.Range(1, 5)
+	policyOps := []int{len(b.ops)} // ops that recorded an entry for the policy ref
 	pushSome := func() {
 		n := r.Intn(3)
 		for i := 0; i < n; i++ {
@@ -174,6 +175,15 @@ func (c02) Generate(r *core.Rand, tier string, idx uint64) *core.Case {
 				who = advKey // the adversary pushes with its own key
 			}
 			b.add(world.Op{Kind: "push", Actor: who, Ref: mainRef, Files: fileFor(r, len(b.ops)), CommitKey: who, EntryKey: -2})
+		}
+		if len(policyOps) > 0 && r.Chance(0.2) {
+			// anybody can record an annotation naming a policy entry; the chain of trust must not care
+			who := devs[r.Intn(len(devs))]
+			if r.Chance(0.4) {
+				who = advKey
+			}
+			b.add(world.Op{Kind: "annotate", Actor: who, Targets: []int{policyOps[r.Intn(len(policyOps))]}, Skip: r.Chance(0.8), Msg: "revoke policy", EntryKey: -2})
+			c.Flags["policyEntryAnnotated"] = true
 		}
 		if r.Chance(0.3) {
 			b.add(world.Op{Kind: "verify", Actor: 1, Ref: mainRef, Mode: []string{"full", "latest"}[r.Intn(2)]})
@@ -241,7 +251,7 @@ func (c02) Generate(r *core.Rand, tier string, idx uint64) *core.Case {
 				// after a broken state the honest holder's apply will be refused; still generated
 			}
 			b.add(world.Op{Kind: "stage", Actor: 0, Policy: cur})
-			b.add(world.Op{Kind: "apply", Actor: 0})
+			policyOps = append(policyOps, b.add(world.Op{Kind: "apply", Actor: 0}))
 			c.Flags["hasHonestSuccessor"] = true
 			history = append(history, cur)
 		} else {
@@ -289,7 +299,7 @@ func (c02) Generate(r *core.Rand, tier string, idx uint64) *core.Case {
 			case 9: // a perfectly valid state, but written directly (no defect)
 				cur.Files["targets"].Version++
 			}
-			b.add(world.Op{Kind: "byzPolicy", Actor: 6, Policy: cur, EntryKey: -2, N: kind})
+			policyOps = append(policyOps, b.add(world.Op{Kind: "byzPolicy", Actor: 6, Policy: cur, EntryKey: -2, N: kind}))
 			badSeen = true
 			history = append(history, cur)
 		}
